@@ -31,6 +31,9 @@
 (***************************************************************************)
 EXTENDS Integers, Sequences, FiniteSets, TLC
 
+CONSTANTS Variant        \* Level B wrap of the heading change: "euclid" = mathematical modulus (what the property needs),
+                         \* "pinned" = Rust's `%` (remainder with the sign of the dividend), as in the current tree
+
 INF == 1073741824        \* 2^30 = +infinity (avh::common::INF)
 
 VARIABLES train, net, route,     \* the case
@@ -59,18 +62,22 @@ Only(S) == CHOOSE x \in S : TRUE
 (* with g = c2 * k1 = g16 / 16. A, R below are a and r in units of 1/S; w   *)
 (* is then in units of 1/S too and the formulas are unchanged.              *)
 HalfTurn == 180 * unit
-WrapAbs(d) == Abs(((d + HalfTurn) % (2 * HalfTurn)) - HalfTurn)      \* TLA+ % is the mathematical modulus
 CurveWS(A, R, t) ==
   LET E == 762 * A - 25 * R IN
   IF E < 0 THEN 762 * t.c0 * A
-  ELSE 25 * t.c0 * R + t.c1 * E + (IF t.g16 = 0 THEN 0 ELSE (t.g16 * E * E) \div (400 * R))
-(* the quadratic term is evaluated in 32-bit integers: usable only while g16 * E^2 < 2^31 (TplFits below) *)
+  ELSE 25 * t.c0 * R + t.c1 * E + (IF t.g16 = 0 THEN 0
+                                   ELSE IF E * t.g16 > 2147483647 \div E THEN -1      \* not computable in 32 bits (see TplFits)
+                                   ELSE LET q == t.g16 * E * E IN                      \* rounded to nearest
+                                        (q \div (400 * R)) + (IF 2 * (q % (400 * R)) >= 400 * R THEN 1 ELSE 0))
+(* the quadratic term is evaluated in 32-bit integers: usable only while g16 * E^2 < 2^31; the model and the generators *)
+(* only pair a quadratic train with networks where that holds (TplFits / quad_fits).                                   *)
 
 ----------------------------------------------------------------------------
 (* Level A reference: walking the route's own points                         *)
 
 HeadPts(l) == IF Len(l.heads) = 0 THEN << <<0, 0>>, <<l.len, 0>> >> ELSE l.heads
 
+(* every fold below threads one state tuple st = <<base offset, cumulative value, list so far>> *)
 RECURSIVE BasesFrom(_, _, _)
 BasesFrom(ls, j, acc) == IF j > Len(ls) THEN acc
                          ELSE Only({BasesFrom(ls, j+1, a2) : a2 \in {Append(acc, Last(acc) + ls[j].len)}})
@@ -80,34 +87,36 @@ GC(l) == Max2(Len(l.elevs), 2) - 1
 CC(l) == Max2(Len(l.heads), 2) - 1
 
 (* elevation walk: first elevation of the first link plus the accumulated within-link rises *)
-RECURSIVE WG(_, _, _, _, _)
-WG(ls, j, base, nb, acc) ==
-  IF j > Len(ls) THEN Append(acc, <<base, 0, nb>>)
-  ELSE LET e == ls[j].elevs  m == Len(e)
-           seg == [i \in 1..(m-1) |-> <<base + e[i][1], e[i+1][2] - e[i][2], nb + e[i][2] - e[1][2]>>]
-       IN Only({WG(ls, j+1, b2, n2, a2) : b2 \in {base + ls[j].len}, n2 \in {nb + e[m][2] - e[1][2]}, a2 \in {acc \o seg}})
-WalkGrades(ls) == IF ls = <<>> THEN << <<0, 0, 0>> >> ELSE WG(ls, 1, 0, ls[1].elevs[1][2], <<>>)
+GStep(l, st) ==
+  LET e == l.elevs  m == Len(e)  base == st[1]  nb == st[2] IN
+  <<base + l.len, nb + e[m][2] - e[1][2],
+    st[3] \o [i \in 1..(m-1) |-> <<base + e[i][1], e[i+1][2] - e[i][2], nb + e[i][2] - e[1][2]>>]>>
+RECURSIVE WG(_, _, _)
+WG(ls, j, st) == IF j > Len(ls) THEN Append(st[3], <<st[1], 0, st[2]>>)
+                 ELSE Only({WG(ls, j+1, s2) : s2 \in {GStep(ls[j], st)}})
+WalkGrades(ls) == IF ls = <<>> THEN << <<0, 0, 0>> >> ELSE WG(ls, 1, <<0, ls[1].elevs[1][2], <<>>>>)
 
-RECURSIVE WCL(_, _, _, _, _, _, _)
-WCL(h, i, base, nb, acc, t, half) ==
-  IF i >= Len(h) THEN <<acc, nb>>
-  ELSE LET d == h[i+1][2] - h[i][2]
-           a == Abs(((d + half) % (2 * half)) - half)
-       IN Only({WCL(h, i+1, base, n2, a2, t, half) :
-                   n2 \in {nb + w}, a2 \in {Append(acc, <<base + h[i][1], w, nb>>)}} : w \in {CurveWS(a, h[i+1][1] - h[i][1], t)})
-RECURSIVE WC(_, _, _, _, _, _, _)
-WC(ls, j, base, nb, acc, t, half) ==
-  IF j > Len(ls) THEN Append(acc, <<base, 0, nb>>)
-  ELSE LET r == WCL(HeadPts(ls[j]), 1, base, nb, acc, t, half)
-       IN WC(ls, j+1, base + ls[j].len, r[2], r[1], t, half)
-WalkCurves(ls, t, half) == WC(ls, 1, 0, 0, <<>>, t, half)
+(* curve walk: |wrapped heading change| over run through the documented function, cumulative from 0 *)
+WrapAbsH(d, half) == Abs(((d + half) % (2 * half)) - half)          \* TLA+ % is the mathematical modulus
+CStep(h, i, st, t, half) ==
+  Only({<<st[1], st[2] + w, Append(st[3], <<st[1] + h[i][1], w, st[2]>>)>> :
+          w \in {CurveWS(WrapAbsH(h[i+1][2] - h[i][2], half), h[i+1][1] - h[i][1], t)}})
+RECURSIVE WCL(_, _, _, _, _)
+WCL(h, i, st, t, half) == IF i >= Len(h) THEN st
+                          ELSE Only({WCL(h, i+1, s2, t, half) : s2 \in {CStep(h, i, st, t, half)}})
+RECURSIVE WC(_, _, _, _, _)
+WC(ls, j, st, t, half) ==
+  IF j > Len(ls) THEN Append(st[3], <<st[1], 0, st[2]>>)
+  ELSE Only({WC(ls, j+1, <<st[1] + ls[j].len, r[2], r[3]>>, t, half) :
+               r \in {Only({WCL(h, 1, st, t, half) : h \in {HeadPts(ls[j])}})}})
+WalkCurves(ls, t, half) == WC(ls, 1, <<0, 0, <<>>>>, t, half)
 
-RECURSIVE WCat(_, _, _, _)
-WCat(ls, j, base, acc) ==
-  IF j > Len(ls) THEN acc
-  ELSE WCat(ls, j+1, base + ls[j].len,
-            acc \o [i \in 1..Len(ls[j].cat) |-> <<base + ls[j].cat[i][1], base + ls[j].cat[i][2], ls[j].cat[i][3]>>])
-WalkCat(ls) == WCat(ls, 1, 0, <<>>)
+RECURSIVE WCat(_, _, _)
+WCat(ls, j, st) ==
+  IF j > Len(ls) THEN st[2]
+  ELSE Only({WCat(ls, j+1, s2) : s2 \in {<<st[1] + ls[j].len,
+            st[2] \o [i \in 1..Len(ls[j].cat) |-> <<st[1] + ls[j].cat[i][1], st[1] + ls[j].cat[i][2], ls[j].cat[i][3]>>]>>}})
+WalkCat(ls) == WCat(ls, 1, <<0, <<>>>>)
 
 RECURSIVE SumTo(_, _)
 SumTo(f, j) == IF j <= 0 THEN 0 ELSE f[j] + SumTo(f, j-1)
@@ -117,7 +126,7 @@ SumTo(f, j) == IF j <= 0 THEN 0 ELSE f[j] + SumTo(f, j-1)
 (* hs = half a turn in heading units (180 * S), te/tw = tolerances (0 on the lattice).                 *)
 
 BoundariesOf(ls, ids, p, to) ==
-  LET B == Bases(ls) IN
+  \E B \in {Bases(ls)} :
   /\ Len(p) = Len(ls) + 1
   /\ \A j \in 1..Len(p) : Near(p[j][1], B[j], to * j)
   /\ \A j \in 1..Len(ls) : p[j][5] = ids[j]
@@ -128,19 +137,19 @@ CountsOf(ls, p, g, c, k) ==
   /\ Len(p) = Len(ls) + 1
   /\ \A j \in 1..Len(ls) : p[j][2] = GC(ls[j]) /\ p[j][3] = CC(ls[j]) /\ p[j][4] = Len(ls[j].cat)
   /\ Last(p)[2] = 0 /\ Last(p)[3] = 0 /\ Last(p)[4] = 0
-  /\ LET gs == [j \in 1..Len(p) |-> p[j][2]]  cs == [j \in 1..Len(p) |-> p[j][3]]  ks == [j \in 1..Len(p) |-> p[j][4]] IN
+  /\ \E gs \in {[j \in 1..Len(p) |-> p[j][2]]}, cs \in {[j \in 1..Len(p) |-> p[j][3]]}, ks \in {[j \in 1..Len(p) |-> p[j][4]]} :
      /\ Len(g) = 1 + SumTo(gs, Len(p)) /\ Len(c) = 1 + SumTo(cs, Len(p)) /\ Len(k) = SumTo(ks, Len(p))
      /\ \A j \in 1..Len(p) : /\ 1 + SumTo(gs, j-1) <= Len(g) /\ g[1 + SumTo(gs, j-1)][1] = p[j][1]
                              /\ 1 + SumTo(cs, j-1) <= Len(c) /\ c[1 + SumTo(cs, j-1)][1] = p[j][1]
 
 (* grade break points are the route's elevation points, Elev there = the walk *)
 ElevWalkOf(ls, g, to, te) ==
-  LET W == WalkGrades(ls) IN
+  \E W \in {WalkGrades(ls)} :
   /\ Len(g) = Len(W)
   /\ \A i \in 1..Len(W) : Near(g[i][1], W[i][1], to * (Len(ls) + 1)) /\ Near(g[i][3], W[i][3], te * (2 * Len(ls) + 1))
 (* grade of a segment = rise / run of the source points (logged as coeff * run) *)
 GradeSlopeOf(ls, g, te) ==
-  LET W == WalkGrades(ls) IN
+  \E W \in {WalkGrades(ls)} :
   /\ Len(g) = Len(W)
   /\ \A i \in 1..Len(W) : Near(g[i][2], W[i][2], 2 * te)
 CumulativeOf(s, t) ==
@@ -148,17 +157,17 @@ CumulativeOf(s, t) ==
   /\ \A i \in 1..(Len(s)-1) : Near(s[i+1][3] - s[i][3], s[i][2], t)
 
 CurvePointsOf(ls, c, t, hs, to) ==
-  LET W == WalkCurves(ls, t, hs) IN
+  \E W \in {WalkCurves(ls, t, hs)} :
   /\ Len(c) = Len(W)
   /\ \A i \in 1..Len(W) : Near(c[i][1], W[i][1], to * (Len(ls) + 1))
 CurveCoeffOf(ls, c, t, hs, tw) ==
-  LET W == WalkCurves(ls, t, hs) IN
+  \E W \in {WalkCurves(ls, t, hs)} :
   /\ Len(c) = Len(W)
   /\ \A i \in 1..Len(W) : Near(c[i][2], W[i][2], tw)
 CurveStartOf(c) == Len(c) >= 1 /\ c[1][3] = 0
 
 CatShiftOf(ls, k, to) ==
-  LET W == WalkCat(ls) IN
+  \E W \in {WalkCat(ls)} :
   /\ Len(k) = Len(W)
   /\ \A i \in 1..Len(W) : Near(k[i][1], W[i][1], to * (Len(ls) + 1)) /\ Near(k[i][2], W[i][2], to * (Len(ls) + 1))
                           /\ k[i][3] = W[i][3]
@@ -178,72 +187,76 @@ TolE == IF exact THEN 0 ELSE 1
 TolW == IF exact THEN (IF train.g16 = 0 THEN 0 ELSE 1) ELSE 787 * Max2(train.c0, train.c1) + 1
 TolC == IF exact /\ train.g16 = 0 THEN 0 ELSE 2
 
-Boundaries      == ok => BoundariesOf(Consumed, ConsumedId, lp, TolO)
-Counts          == ok => CountsOf(Consumed, lp, grades, curves, cat)
-ElevWalk        == ok => ElevWalkOf(Consumed, grades, TolO, TolE)
-GradeSlope      == ok => GradeSlopeOf(Consumed, grades, TolE)
+OnConsumed(P(_, _)) == \E ls \in {Consumed}, ids \in {ConsumedId} : P(ls, ids)
+Boundaries      == ok => OnConsumed(LAMBDA ls, ids : BoundariesOf(ls, ids, lp, TolO))
+Counts          == ok => OnConsumed(LAMBDA ls, ids : CountsOf(ls, lp, grades, curves, cat))
+ElevWalk        == ok => OnConsumed(LAMBDA ls, ids : ElevWalkOf(ls, grades, TolO, TolE))
+GradeSlope      == ok => OnConsumed(LAMBDA ls, ids : GradeSlopeOf(ls, grades, TolE))
 CumulativeGrade == ok => CumulativeOf(grades, 2 * TolE)
-CurvePoints     == ok => CurvePointsOf(Consumed, curves, train, HalfTurn, TolO)
-CurveCoeff      == ok => CurveCoeffOf(Consumed, curves, train, HalfTurn, TolW)
+CurvePoints     == ok => OnConsumed(LAMBDA ls, ids : CurvePointsOf(ls, curves, train, HalfTurn, TolO))
+CurveCoeff      == ok => OnConsumed(LAMBDA ls, ids : CurveCoeffOf(ls, curves, train, HalfTurn, TolW))
 CumulativeCurve == ok => CumulativeOf(curves, TolC) /\ CurveStartOf(curves)
-CatShift        == ok => CatShiftOf(Consumed, cat, TolO)
+CatShift        == ok => OnConsumed(LAMBDA ls, ids : CatShiftOf(ls, cat, TolO))
 
 ----------------------------------------------------------------------------
 (* Level B: PathTpc::new / extend / finish                                   *)
 
 NewPath == [lp |-> << <<0, 0, 0, 0, 0>> >>, grades |-> << <<0, 0, 0>> >>, curves |-> << <<0, 0, 0>> >>, cat |-> <<>>, ok |-> TRUE]
 
-(* "Extend link points": returns <<lp, ok>>; on failure lp keeps what was appended before the offending link *)
+(* "Extend link points": r = <<lp, ok>>; on failure lp keeps what was appended before the offending link *)
+L1Step(n, p, id) ==
+  IF id = 0 THEN <<p, FALSE>>                                              \* ensure!(link_idx.is_real())
+  ELSE LET link == n[id]
+           base == Last(p)[1]
+           contiguous == IF Len(p) >= 2
+                         THEN LET pv == p[Len(p)-1][5] IN
+                              /\ pv # 0
+                              /\ (link.prev # link.palt \/ link.palt = 0)     \* (the twin ensure! on next / next_alt cannot fail in the family)
+                              /\ (link.prev = pv \/ link.palt = pv)
+                         ELSE TRUE
+       IN IF ~contiguous THEN <<p, FALSE>>
+          ELSE <<[p EXCEPT ![Len(p)] = <<base, GC(link), CC(link), Len(link.cat), id>>] \o << <<link.len + base, 0, 0, 0, 0>> >>, TRUE>>
 RECURSIVE Loop1(_, _, _, _)
-Loop1(n, p, ch, i) ==
-  IF i > Len(ch) THEN <<p, TRUE>>
-  ELSE LET id == ch[i] IN
-    IF id = 0 THEN <<p, FALSE>>                                           \* ensure!(link_idx.is_real())
-    ELSE LET link == n[id]
-             base == Last(p)[1]
-             contiguous == IF Len(p) >= 2
-                           THEN LET pv == p[Len(p)-1][5] IN
-                                /\ pv # 0
-                                /\ (link.prev # link.palt \/ link.palt = 0)     \* (the twin ensure! on next / next_alt cannot fail in the family)
-                                /\ (link.prev = pv \/ link.palt = pv)
-                           ELSE TRUE
-         IN IF ~contiguous THEN <<p, FALSE>>
-            ELSE Loop1(n, [p EXCEPT ![Len(p)] = <<base, GC(link), CC(link), Len(link.cat), id>>]
-                          \o << <<link.len + base, 0, 0, 0, 0>> >>, ch, i+1)
+Loop1(n, r, ch, i) == IF i > Len(ch) \/ ~r[2] THEN r
+                      ELSE Only({Loop1(n, r2, ch, i+1) : r2 \in {L1Step(n, r[1], ch[i])}})
 
-(* "Extend elevs" of one link *)
-RECURSIVE ElevLoop(_, _, _, _, _)
-ElevLoop(g, e, i, base, nprev) ==
-  IF i >= Len(e) THEN g
-  ELSE LET rise == e[i+1][2] - e[i][2]
-           nn == nprev + e[i+1][2] - e[i][2]
-       IN ElevLoop([g EXCEPT ![Len(g)][2] = rise] \o << <<base + e[i+1][1], 0, nn>> >>, e, i+1, base, nn)
-(* "Extend curves" of one link *)
-RECURSIVE HeadLoop(_, _, _, _, _, _)
-HeadLoop(c, h, i, base, nprev, t) ==
-  IF i >= Len(h) THEN c
-  ELSE LET w == CurveWS(WrapAbs(h[i+1][2] - h[i][2]), h[i+1][1] - h[i][1], t)
-       IN HeadLoop([c EXCEPT ![Len(c)][2] = w] \o << <<base + h[i+1][1], 0, nprev + w>> >>, h, i+1, base, nprev + w, t)
+(* Rust: -REV/2 + (d + REV/2) % REV, then abs() *)
+Rem(x, m) == IF x >= 0 THEN x % m ELSE -((-x) % m)
+WrapAbs(d) == IF Variant = "pinned" THEN Abs(Rem(d + HalfTurn, 2 * HalfTurn) - HalfTurn)
+              ELSE Abs(((d + HalfTurn) % (2 * HalfTurn)) - HalfTurn)
 
+(* "Extend elevs" of one link: st = <<grades, res_net_prev>> *)
+RECURSIVE ElevLoop(_, _, _, _)
+ElevLoop(st, e, i, base) ==
+  IF i >= Len(e) THEN st[1]
+  ELSE Only({ElevLoop(s2, e, i+1, base) :
+               s2 \in {LET g == st[1]  rise == e[i+1][2] - e[i][2]  nn == st[2] + e[i+1][2] - e[i][2]
+                       IN <<[g EXCEPT ![Len(g)][2] = rise] \o << <<base + e[i+1][1], 0, nn>> >>, nn>>}})
+(* "Extend curves" of one link: st = <<curves, res_net_prev>> *)
+RECURSIVE HeadLoop(_, _, _, _, _)
+HeadLoop(st, h, i, base, t) ==
+  IF i >= Len(h) THEN st[1]
+  ELSE Only({HeadLoop(<<[st[1] EXCEPT ![Len(st[1])][2] = w] \o << <<base + h[i+1][1], 0, st[2] + w>> >>, st[2] + w>>, h, i+1, base, t) :
+               w \in {CurveWS(WrapAbs(h[i+1][2] - h[i][2]), h[i+1][1] - h[i][1], t)}})
+
+L2Step(link, st, t) ==
+  LET base == Last(st.grades)[1]                                         \* offset_base = self.grades.last().offset
+      g2 == IF link.elevs = <<>> THEN Append(st.grades, <<base + link.len, 0, Last(st.grades)[3]>>)
+            ELSE ElevLoop(<<st.grades, Last(st.grades)[3]>>, link.elevs, 1, base)
+      c2 == IF link.heads = <<>> THEN Append(st.curves, <<base + link.len, 0, Last(st.curves)[3]>>)
+            ELSE HeadLoop(<<st.curves, Last(st.curves)[3]>>, link.heads, 1, base, t)
+      k2 == st.cat \o [j \in 1..Len(link.cat) |-> <<base + link.cat[j][1], base + link.cat[j][2], link.cat[j][3]>>]
+  IN [st EXCEPT !.grades = g2, !.curves = c2, !.cat = k2]
 RECURSIVE Loop2(_, _, _, _, _)
-Loop2(n, st, ch, i, t) ==
-  IF i > Len(ch) THEN st
-  ELSE LET link == n[ch[i]]
-           base == Last(st.grades)[1]                                   \* offset_base = self.grades.last().offset
-           g2 == IF link.elevs = <<>> THEN Append(st.grades, <<base + link.len, 0, Last(st.grades)[3]>>)
-                 ELSE ElevLoop(st.grades, link.elevs, 1, base, Last(st.grades)[3])
-           c2 == IF link.heads = <<>> THEN Append(st.curves, <<base + link.len, 0, Last(st.curves)[3]>>)
-                 ELSE HeadLoop(st.curves, link.heads, 1, base, Last(st.curves)[3], t)
-           k2 == st.cat \o [j \in 1..Len(link.cat) |-> <<base + link.cat[j][1], base + link.cat[j][2], link.cat[j][3]>>]
-       IN Loop2(n, [st EXCEPT !.grades = g2, !.curves = c2, !.cat = k2], ch, i+1, t)
+Loop2(n, st, ch, i, t) == IF i > Len(ch) THEN st
+                          ELSE Only({Loop2(n, s2, ch, i+1, t) : s2 \in {L2Step(n[ch[i]], st, t)}})
 
 ExtendB(n, st, ch, t) ==
   LET \* "Set initial elevation when first link is added to path"
       g0 == IF Len(st.grades) = 1 /\ ch # <<>> /\ ch[1] # 0 /\ n[ch[1]].elevs # <<>>
             THEN [st.grades EXCEPT ![1][3] = n[ch[1]].elevs[1][2]] ELSE st.grades
-      r1 == Loop1(n, st.lp, ch, 1)
-      s1 == [st EXCEPT !.grades = g0, !.lp = r1[1], !.ok = r1[2]]
-  IN IF r1[2] THEN Loop2(n, s1, ch, 1, t) ELSE s1
+  IN Only({IF r1[2] THEN Loop2(n, [st EXCEPT !.grades = g0, !.lp = r1[1], !.ok = TRUE], ch, 1, t)
+           ELSE [st EXCEPT !.grades = g0, !.lp = r1[1], !.ok = FALSE] : r1 \in {Loop1(n, <<st.lp, TRUE>>, ch, 1)}})
 
 FinishB(st) == [st EXCEPT !.grades = Append(@, <<INF, 0, Last(@)[3]>>), !.curves = Append(@, <<INF, 0, Last(@)[3]>>)]
 
@@ -251,7 +264,8 @@ RECURSIVE Chunks(_, _, _)
 Chunks(r, sizes, from) == IF sizes = <<>> THEN <<>>
                           ELSE <<SubSeq(r, from, from + sizes[1] - 1)>> \o Chunks(r, Tail(sizes), from + sizes[1])
 RECURSIVE FoldExtend(_, _, _, _)
-FoldExtend(n, st, chs, t) == IF chs = <<>> \/ ~st.ok THEN st ELSE FoldExtend(n, ExtendB(n, st, chs[1], t), Tail(chs), t)
+FoldExtend(n, st, chs, t) == IF chs = <<>> \/ ~st.ok THEN st
+                             ELSE Only({FoldExtend(n, s2, Tail(chs), t) : s2 \in {ExtendB(n, st, chs[1], t)}})
 (* the profile Level B predicts for a route consumed by calls of the given sizes *)
 ModelPath(n, r, sizes, t) == FoldExtend(n, NewPath, Chunks(r, sizes, 1), t)
 
@@ -267,7 +281,7 @@ Mk(tpl, prev, palt) == [len |-> tpl.len, elevs |-> tpl.elevs, heads |-> tpl.head
 PrevOf(topo, k) == IF topo = "merge" THEN (CASE k = 1 -> <<0, 0>> [] k = 2 -> <<0, 0>> [] k = 3 -> <<1, 2>> [] OTHER -> <<k-1, 0>>)
                    ELSE <<k-1, 0>>
 TplFits(tpl, t) == \A i \in 1..(Len(tpl.heads)-1) :
-                      LET E == 762 * WrapAbs(tpl.heads[i+1][2] - tpl.heads[i][2]) - 25 * (tpl.heads[i+1][1] - tpl.heads[i][1])
+                      LET E == 762 * WrapAbsH(tpl.heads[i+1][2] - tpl.heads[i][2], 180) - 25 * (tpl.heads[i+1][1] - tpl.heads[i][1])
                       IN t.g16 = 0 \/ E < 0 \/ E * t.g16 <= 2147483647 \div E
 
 Succ(n, a) == {b \in 1..Len(n) : n[b].prev = a \/ n[b].palt = a}
